@@ -60,6 +60,8 @@ package node
 //@   loop 2 invariant @sup Lsupply == old(upd(batchSup(Lsupply, txs, iter1, currentHeight, rates, averages, burn), txs[iter1].Input.Type, batchSup(Lsupply, txs, iter1, currentHeight, rates, averages, burn)[txs[iter1].Input.Type] - txs[iter1].Input.Amount + sumNonBurn(txs[iter1].Transfers, iter, burn)))
 //@   loop 2 invariant @rel Lrel[H] && Lexec == upd(old(Lexec), H, currentHeight) && (forall h factom.Bytes32 :: h != H ==> (Lrel[h] <==> old(Lrel)[h]))
 //@   loop 2 invariant @tx_is_transfer old(!isConv(txs[iter1]) && !pegDeferred(currentHeight, txs, iter1))
+//@   loop 1 no-break
+//@   loop 2 no-break
 //@
 //@ // ---- admission of a batch (C03 C13 C17) ----------------------------------------------------
 //@ spec func smallAsset(t int) bool =
@@ -126,6 +128,9 @@ package node
 //@   loop 2 invariant @inputs_present forall k int :: 0 <= k && k < len(txs) ==> dom(balances)[old(txs[k].Input.Address)]
 //@   loop 3 invariant @inner_maps balances != nil && fresh(balances) && (forall a factom.FAAddress :: dom(balances)[a] ==> vals(balances)[a] != nil && fresh(vals(balances)[a]))
 //@   loop 3 invariant @inputs_present forall k int :: 0 <= k && k < len(txs) ==> dom(balances)[old(txs[k].Input.Address)]
+//@   loop 1 no-break
+//@   loop 2 no-break
+//@   loop 3 no-break
 //@
 //@ // ---- a block of transaction entries (C05 C06 C07 C17 C08) ------------------------------------
 //@ func (*Pegnetd).ApplyTransactionBlock
@@ -143,6 +148,7 @@ package node
 //@   loop 1 invariant @nonneg balNonNeg(Lbal)
 //@   loop 1 invariant @held_have_history holdInv(Lhold, Lhist)
 //@   loop 1 preserves old
+//@   loop 1 no-break
 //@
 //@ // ---- conversions in holding (C06 C07 C13 C16 C17) ----------------------------------------------
 //@ // avgOf(m, h): m holds the per-asset averages over the averaging window that ends at height h
@@ -186,6 +192,8 @@ package node
 //@   loop 2 invariant @unexecuted_rest forall k int :: iter <= k && k < len(txBatches) ==> !Lrel[*txBatches[k].Entry.Hash]
 //@   loop 2 invariant @distinct forall j int, k int :: 0 <= j && j < k && k < len(txBatches) ==> *txBatches[j].Entry.Hash != *txBatches[k].Entry.Hash
 //@   loop 2 invariant @batches forall k int :: 0 <= k && k < len(txBatches) ==> txBatches[k] != nil && txBatches[k].Entry.Hash != nil && tickersInRange(txBatches[k].Transactions) && Lhold[*txBatches[k].Entry.Hash] == i
+//@   loop 1 no-break
+//@   loop 2 no-break
 //@
 //@ // ---- grading glue (C08 C11) -------------------------------------------------------------------------
 //@ spec func sprVersionAt(h int) int = h >= wrap_int32(config.V202EnhanceActivation) ? 7 : (h >= wrap_int32(config.SprSignatureActivation) ? 6 : 5)
@@ -245,6 +253,7 @@ package node
 //@   loop 1 invariant @paid Lbal == payOPR(old(Lbal), oprWinners(gradedBlock), iter)
 //@   loop 1 invariant @supply Lsupply == upd(old(Lsupply), fat2.PTickerPEG, old(Lsupply)[fat2.PTickerPEG] + paidOPR(oprWinners(gradedBlock), iter))
 //@   loop 1 preserves old
+//@   loop 1 no-break
 //@
 //@ func (*Pegnetd).ApplyGradedSPRBlock
 //@   props C11 C04 C08
@@ -260,6 +269,7 @@ package node
 //@   loop 1 invariant @paid Lbal == paySPR(old(Lbal), sprWinners(gradedSPRBlock), iter)
 //@   loop 1 invariant @supply Lsupply == upd(old(Lsupply), fat2.PTickerPEG, old(Lsupply)[fat2.PTickerPEG] + paidSPR(sprWinners(gradedSPRBlock), iter))
 //@   loop 1 preserves old
+//@   loop 1 no-break
 //@
 //@ // ---- one block (C02 C07 C10 C12 C14 C15) -----------------------------------------------------------
 //@ // Contracts of callees that are not (yet) verified themselves are marked trusted: assumed here, listed in the evidence.
@@ -293,6 +303,7 @@ package node
 //@   loop 1 invariant @only_down (forall t int :: Lbal[M][t] == old(Lbal)[M][t] || Lbal[M][t] == 0) && balNonNeg(Lbal) && (forall a factom.FAAddress, t int :: a != M ==> Lbal[a][t] == old(Lbal)[a][t])
 //@   loop 1 invariant @snapshot err == nil ==> balances != nil && (forall t fat2.PTicker :: validTicker(t) ==> dom(balances)[t] && vals(balances)[t] == old(Lbal)[M][t])
 //@   loop 1 preserves old
+//@   loop 1 no-break
 //@
 //@ // the per-block PEG bank (C16): opened with the base amount exactly in the bank era [V4OPRUpdate, 2.0), untouched otherwise
 //@ func (*Pegnetd).SyncBank
@@ -338,6 +349,8 @@ package node
 //@   loop 2 invariant @credited Lbal == burnsCredited(old(Lbal), burns, iter) && balNonNeg(Lbal) && (forall a factom.FAAddress, t int :: t != fat2.PTickerFCT ==> Lbal[a][t] == old(Lbal)[a][t])
 //@   loop 2 invariant @supply Lsupply == upd(old(Lsupply), fat2.PTickerFCT, old(Lsupply)[fat2.PTickerFCT] + burnsTotal(burns, iter))
 //@   loop 2 invariant @only_burns forall j int :: 0 <= j && j < len(burns) ==> isBurn(burns[j])
+//@   loop 1 no-break
+//@   loop 2 no-break
 //@
 //@ func (*Pegnetd).SyncBlock
 //@   props C02 C07 C10 C12 C14 C15
@@ -454,6 +467,7 @@ package node
 //@   loop 1 invariant @paid Lbal == devPay(old(Lbal), developers, iter, height) && balNonNeg(Lbal)
 //@   loop 1 invariant @supply Lsupply == upd(old(Lsupply), fat2.PTickerPEG, old(Lsupply)[fat2.PTickerPEG] + devPaid(developers, iter, height))
 //@   loop 1 preserves old
+//@   loop 1 no-break
 //@
 //@ // the fixed list: 14 developers whose shares add up to exactly 2,000 PEG x 144 from 2.0.2 on and 2,000 PEG before
 //@ spec func devSum14(h int) int = devShare(DeveloperRewardAddreses[0].DevRewardPct, h) + devShare(DeveloperRewardAddreses[1].DevRewardPct, h) + devShare(DeveloperRewardAddreses[2].DevRewardPct, h) + devShare(DeveloperRewardAddreses[3].DevRewardPct, h) + devShare(DeveloperRewardAddreses[4].DevRewardPct, h) + devShare(DeveloperRewardAddreses[5].DevRewardPct, h) + devShare(DeveloperRewardAddreses[6].DevRewardPct, h) + devShare(DeveloperRewardAddreses[7].DevRewardPct, h) + devShare(DeveloperRewardAddreses[8].DevRewardPct, h) + devShare(DeveloperRewardAddreses[9].DevRewardPct, h) + devShare(DeveloperRewardAddreses[10].DevRewardPct, h) + devShare(DeveloperRewardAddreses[11].DevRewardPct, h) + devShare(DeveloperRewardAddreses[12].DevRewardPct, h) + devShare(DeveloperRewardAddreses[13].DevRewardPct, h)
@@ -477,6 +491,7 @@ package node
 //@   loop 1 invariant @range 0 <= iter && iter <= len(MintTotalSupplyMap)
 //@   loop 1 invariant @minted Lbal == mintAll(old(Lbal), MintTotalSupplyMap, iter, faAddr(GlobalMintAddress)) && balNonNeg(Lbal)
 //@   loop 1 preserves old
+//@   loop 1 no-break
 //@ lemma mintListFits() [C15]: len(MintTotalSupplyMap) == 31 && (forall k int :: 0 <= k && k < 31 ==> MintTotalSupplyMap[k].Amount <= 184467440737 && validTicker(MintTotalSupplyMap[k].Ticker))
 //@
 //@ // ---- holder staking payouts (C14 C04 C01) ---------------------------------------------------------
@@ -516,6 +531,11 @@ package node
 //@   loop 5 invariant @peg_only (forall a factom.FAAddress, t int :: t != fat2.PTickerPEG ==> Lbal[a][t] == old(Lbal)[a][t]) && (forall a factom.FAAddress :: Lbal[a][fat2.PTickerPEG] >= old(Lbal)[a][fat2.PTickerPEG]) && balNonNeg(Lbal)
 //@   loop 5 invariant @total_bounded msum(vals(ranged), dom(ranged)) <= 450000000000 * 144
 //@   loop 5 preserves old
+//@   loop 1 no-break
+//@   loop 2 no-break
+//@   loop 3 no-break
+//@   loop 4 no-break
+//@   loop 5 no-break
 //@
 //@ // determinism of the payout records and of the dust recipient (C01): the slice built from the stake map (in map iteration
 //@ // order) is sorted with an unstable sort; the result is a function of the map only if the sort key is a total order on the
